@@ -35,7 +35,9 @@ def main():
                 vio = [l for l in out.stdout.splitlines() if l.startswith('VIOLATION')]
                 und = [l for l in out.stdout.splitlines() if 'UNDECIDED' in l]
                 caught[p] = {'exit': out.returncode, 'violations': len(vio), 'first': vio[0] if vio else None, 'undecided': len(und), 'wall_s': round(time.time() - t, 1),
-                             'no_input': sum(1 for l in vio if l.endswith('no-failing-input-found'))}
+                             'no_input': sum(1 for l in vio if l.endswith('no-failing-input-found')),
+                             # VIOLATION lines that come from a refuted obligation of a contract (not from the bounded end-to-end tier)
+                             'deductive': sum(1 for l in vio if '/e2e.' not in l.split('replay=')[1])}
         finally:
             sh(f'git -C {REPO} checkout -- .')
         ok = any(c['exit'] == 1 and c['violations'] for c in caught.values())
